@@ -1641,3 +1641,41 @@ def m_from_utf8_lossy(I, c, args, fr):
     if r.variant == 'Ok':
         return Adt('Cow', 'Borrowed', 0, [r.fields[0]])
     raise Unsupported('from_utf8_lossy on invalid data')
+
+@model('NonZero::get')
+def m_nonzero_get(I, c, args, fr):
+    return args[0]
+
+@model('NonZero::new')
+def m_nonzero_new(I, c, args, fr):
+    v = args[0]
+    if is_sym(v):
+        return none() if I.ctx.decide(v == 0) else some(v)
+    return some(v) if v != 0 else none()
+
+@model('NonZero::new_unchecked')
+def m_nonzero_new_unchecked(I, c, args, fr):
+    return args[0]
+
+def latin1_alpha(x):
+    rngs = [(0x41, 0x5a), (0x61, 0x7a), (0xaa, 0xaa), (0xb5, 0xb5), (0xba, 0xba), (0xc0, 0xd6), (0xd8, 0xf6), (0xf8, 0xff)]
+    if is_sym(x):
+        return z3.Or(*[z3.And(z3.UGE(x, lo), z3.ULE(x, hi)) for lo, hi in rngs])
+    return any(lo <= x <= hi for lo, hi in rngs)
+
+@model('char::is_alphabetic', 'char::is_alphanumeric', 'char::is_numeric')
+def m_is_alphabetic_unicode(I, c, args, fr):
+    """Unicode Alphabetic / Numeric for code points below U+0100 (exact table); beyond: outside the model"""
+    x = deref(args[0])
+    if is_sym(x):
+        if not I.ctx.decide(z3.ULT(x, 0x100)):
+            raise Unsupported('char::%s beyond Latin-1' % c.name)
+    elif x >= 0x100:
+        raise Unsupported('char::%s beyond Latin-1' % c.name)
+    dig = z3.And(z3.UGE(x, 48), z3.ULE(x, 57)) if is_sym(x) else 48 <= x <= 57
+    num = b_or(dig, *[int_eq(x, k) for k in (0xb2, 0xb3, 0xb9, 0xbc, 0xbd, 0xbe)])
+    if c.name == 'is_alphabetic':
+        return simp(latin1_alpha(x)) if is_sym(x) else latin1_alpha(x)
+    if c.name == 'is_numeric':
+        return num
+    return b_or(latin1_alpha(x), num)
